@@ -6,7 +6,6 @@ package main
 
 import (
 	"go/token"
-	"regexp"
 	"strings"
 
 	"golang.org/x/tools/go/ssa"
@@ -284,7 +283,22 @@ func liftMay(pred func(ssa.Instruction) bool) func(ssa.Instruction) bool {
 
 // ---- sync/atomic, whatever its spelling ---------------------------------------------------------------------------
 
-var typeArgs = regexp.MustCompile(`\[[^\]]*\]`)
+// stripTypeArgs removes type-argument lists (nested brackets included) from an instantiated function's name.
+func stripTypeArgs(n string) string {
+	var b strings.Builder
+	depth := 0
+	for _, r := range n {
+		switch {
+		case r == '[':
+			depth++
+		case r == ']' && depth > 0:
+			depth--
+		case depth == 0:
+			b.WriteRune(r)
+		}
+	}
+	return b.String()
+}
 
 // atomicOp classifies a call as an operation of package sync/atomic: the function forms (atomic.AddUint64,
 // atomic.LoadPointer ...) and the methods of atomic.Value, atomic.Pointer[T], atomic.Uint64 etc. kind is one of
@@ -294,7 +308,7 @@ func atomicOp(cc *ssa.CallCommon) (kind string, cell ssa.Value, val ssa.Value, o
 	if cc == nil || cc.IsInvoke() {
 		return "", nil, nil, false
 	}
-	n := typeArgs.ReplaceAllString(calleeName(cc), "")
+	n := stripTypeArgs(calleeName(cc))
 	if !strings.Contains(n, "sync/atomic.") || len(cc.Args) == 0 {
 		return "", nil, nil, false
 	}
@@ -430,3 +444,10 @@ func funcsOf(v ssa.Value) []*ssa.Function {
 	walk(v, 0)
 	return out
 }
+
+// typeArgs keeps the old call shape `typeArgs.ReplaceAllString(name, "")` used by many rules; it strips nested lists too.
+type typeArgStripper struct{}
+
+func (typeArgStripper) ReplaceAllString(s, _ string) string { return stripTypeArgs(s) }
+
+var typeArgs typeArgStripper
